@@ -322,7 +322,7 @@ class Real:
             out, ret = type(e).__name__, None
             del self.arrs[na:], self.wraps[nw:], self.fields[nf:], self.ops[no:]
             del self.birth[nf:], self.created_by[nf:], self.opbirth[no:]
-        rec = dict(out=out, ret=ret)
+        rec = dict(out=out, ret=ret, guards_held=bool(self.guard_ok))
         try:
             rec.update(self.snapshot())
         except Exception as e:
@@ -683,6 +683,7 @@ def run(ctx):
             st = dict(st)
             g = st.pop("guard")
             guard_ok = guard_ok and g
+            st["guards_held"] = guard_ok          # the model's Heap.guard vs the oracle's guard on the real objects
             mm.append(st)
         for op, r in zip(ops, impl):
             ctx.stat("op:" + op["op"])
@@ -711,6 +712,7 @@ def run(ctx):
         for c, m in zip(sub, outs2):
             impl = _run_real(c["ops"])
             mm = [{k: v for k, v in st.items() if k != "guard"} for st in m.get("steps", [])]
+            impl = [{k: v for k, v in r.items() if k != "guards_held"} for r in impl]
             same += json.dumps(impl, sort_keys=True) == json.dumps(mm, sort_keys=True)
         ctx.notes.append(f"{same}/{len(sub)} of the disagreeing histories match the model of the un-repaired "
                          f"AnyArray.lock (isinstance(self, np.ndarray)) exactly")
